@@ -42,7 +42,7 @@ Definition node0 (w:bool) (src t nsl:Z) : rnode :=
 Definition pay (n:nat) : list Z := map (fun i => (Z.of_nat i * 7 + 3) mod 256) (seq 0 n).
 Definition tpm (pgn dst:Z) (p:list Z) : msg := {| m_pri := 6; m_pgn := pgn; m_src := 0; m_dst := dst; m_data := p; m_tp := true |}.
 
-Local Ltac conc := vm_compute; repeat split; try reflexivity; try discriminate; try (let X := fresh in intro X; discriminate X); try (left; reflexivity); try (right; reflexivity).
+Local Ltac conc := vm_compute; repeat apply conj; try reflexivity; try discriminate; try (let X := fresh in intro X; discriminate X); try (left; reflexivity); try (right; reflexivity).
 
 Lemma node0_ready w src t nsl : 0 <= src <= 251 -> tp_ready (rn (node0 w src t nsl)) 0.
 Proof.
@@ -72,25 +72,3 @@ Proof.
 Qed.
 Print Assumptions tp_foreign_cts_refuted.
 
-(* ================= 8s: the receive session nobody ends ================= *)
-(* station 50 announces 20 bytes of PGN 130816 to device 22, gives up, and two seconds later transfers 20 bytes of PGN 130817: the library
-   acknowledges and delivers them as PGN 130816 *)
-Theorem tp_later_transfer_refuted : ~ tp_later_transfer_stmt.
-Proof.
-  intros H.
-  specialize (H gf_none (node0 true 22 5000 5) 50 22 130816 130817 20 (pay 20) 0 2000
-                (node0_ready true 22 5000 5 ltac:(lia)) (node0_addressed true 22 5000 5 ltac:(lia))).
-  specialize (H ltac:(repeat constructor) ltac:(vm_compute; discriminate) eq_refl ltac:(lia) ltac:(discriminate) ltac:(lia) ltac:(vm_compute; split; discriminate)).
-  specialize (H ltac:(unfold bytes_ok, pay; apply Forall_forall; intros b Hb; apply in_map_iff in Hb; destruct Hb as (j & <- & _); apply Z.mod_pos_bound; reflexivity) ltac:(lia)).
-  cbv zeta in H.
-  specialize (H {| m_pri := 7; m_pgn := 130816; m_src := 50; m_dst := 22; m_data := pay 20; m_tp := true |}).
-  assert (I: In (EvDeliver {| m_pri := 7; m_pgn := 130816; m_src := 50; m_dst := 22; m_data := pay 20; m_tp := true |})
-               (concat (snd (rrun gf_none (node0 true 22 5000 5)
-                  ([RRx {| r_id := tp_cm_id 50 22; r_len := 8; r_buf := cm_rts 20 255 130816 |}; RPoll; RBase (OTick 2000);
-                    RRx {| r_id := tp_cm_id 50 22; r_len := 8; r_buf := cm_rts (Z.of_nat (length (pay 20))) 255 130817 |}; RPoll] ++
-                   map RRx (map (fun k => {| r_id := tp_dt_id 50 22; r_len := 8; r_buf := dt_frame (pay 20) k |}) (seq 1 (Z.to_nat (npackets (Z.of_nat (length (pay 20))))))) ++
-                   [RPoll; RPoll]))))).
-  { vm_compute. repeat (first [left; reflexivity | right]). }
-  destruct (H I eq_refl) as [E _]. discriminate E.
-Qed.
-Print Assumptions tp_later_transfer_refuted.
